@@ -98,6 +98,16 @@ def op_strategy(draw, kind):
 @st.composite
 def histories(draw, kind):
     ops = draw(st.lists(op_strategy(kind), min_size=3, max_size=14))
+    # scenario prefixes: multi-step interplays that a uniform draw of operations reaches too rarely
+    tpl = draw(st.integers(0, 7))
+    if tpl == 0:  # save on the first mesh, replace it, restore the first mesh, then move it
+        mv = draw(st.sampled_from([dict(op="rotate", theta=37.0, center=[0.0, 0.0, 0.0]), dict(op="translate", t=[0.5, -1.0, 0.0]),
+                                   dict(op="set_coord", A=[[1.5, 0.0], [0.25, 0.75]], b=[0.0, 0.5])]))
+        ops = [dict(op="solve"), dict(op="save"), dict(op="replace_mesh", recipe=_recipe(draw)), dict(op="bc", seed=draw(st.integers(0, 99))),
+               dict(op="set_iter", i=0), mv, dict(op="solve")] + ops
+    elif tpl == 1:  # two condition sets with the same counts on other dofs, solved one after the other
+        sd = draw(st.integers(0, 32)) * 3
+        ops = [dict(op="bc", seed=sd), dict(op="solve"), dict(op="bc", seed=sd + 1), dict(op="solve")] + ops
     case = dict(kind=kind, recipe=_recipe(draw), ops=ops, bc0=draw(st.integers(0, 99)))
     if kind != "thermal":
         case["law"] = dict(cls="iso", dim=2, planeStress=draw(st.booleans()), thickness=1.0, angles=[0.0],
